@@ -140,6 +140,17 @@ def rule_lists(ctx: Ctx):
             n += 1
             continue
         inner = vv.args[0] if isinstance(vv, ast.Call) and show(vv.func) == "list" and len(vv.args) == 1 else None
+        if isinstance(inner, ast.Call) and show(inner.func) == "dict.fromkeys" and len(inner.args) == 1 and isinstance(inner.args[0], ast.Call) \
+                and show(inner.args[0].func) in ("chain.from_iterable", "itertools.chain.from_iterable") and len(inner.args[0].args) == 1 \
+                and isinstance(inner.args[0].args[0], (ast.GeneratorExp, ast.ListComp)):
+            g = inner.args[0].args[0]
+            gens = g.generators
+            ok2 = len(gens) == 1 and not gens[0].ifs and show(gens[0].iter) == "self.transitions" and isinstance(gens[0].target, ast.Name) \
+                and show(g.elt) == f"{gens[0].target.id}.events"
+            rep.check(ok2, "C13.lists", ue.loc(), "unique_events de-duplicates in first-occurrence order over transitions, then over each transition's events",
+                      ue.key, f"return {show(vv)}")
+            n += 1
+            continue
         if isinstance(inner, ast.Call) and isinstance(inner.func, ast.Attribute) and inner.func.attr == "keys" and not inner.args:
             inner = inner.func.value
         if isinstance(inner, ast.DictComp):
